@@ -1,6 +1,7 @@
 """Shared plumbing for the checks that run on the E1 engine."""
 
 from pbt import cellsim
+from pbt import mastersim
 
 
 def run_case(case, stats, oracle_fns, watch):
@@ -16,8 +17,16 @@ def run_case(case, stats, oracle_fns, watch):
             func(sim, info)
         watch(sim, info, flags)
 
-    sim = cellsim.CellSim(case, observers=[observe])
-    sim.run(stats)
+    if case.get('engine') == 'e2':
+        stats.count('engine:e2')
+        sim = mastersim.MasterSim(case, observers=[observe], stats=stats)
+        sim.run()
+        if sim.master_crashes:
+            flags['master_crashes'] = sim.master_crashes
+    else:
+        stats.count('engine:e1')
+        sim = cellsim.CellSim(case, observers=[observe])
+        sim.run(stats)
     flags['sim'] = sim
     return flags
 
